@@ -16,6 +16,7 @@ type c02Case struct {
 	Empty   int    `json:"empty,omitempty"` // 0 none; 1 first branch empty; 2 every second branch empty; 3 all branches empty; 4 first branch comment-only; 5 all branches comment-only
 	Paren   bool   `json:"paren,omitempty"` // branch bodies and the text after the construct start with "("
 	Place   []int  `json:"place"`           // nesting: 0 top, 1 in @each body, 2 in @if branch, 3 in @elseif branch, 4 in @else branch
+	Pre     int    `json:"pre,omitempty"`   // what precedes the construct in the template: 0 text only, 1 a printed expression with parentheses, 2 a printed call
 }
 
 type c02Rep struct {
@@ -31,12 +32,13 @@ func c02Reps() [3][]c02Rep {
 	emptyObj := Val{K: VObj, O: map[string]Val{}}
 	objA := vObj("a", vInt(0))
 	return [3][]c02Rep{
-		{val(vBool(false)), val(vNil()), val(vInt(0)), val(vFloat(0)), val(vStr(""))},
+		{val(vBool(false)), val(vNil()), val(vInt(0)), val(vFloat(0)), val(vStr("")), {eCall(eLit(vStr("")), "len"), nil}},
 		{val(vBool(true)), val(vInt(1)), {&Expr{Op: "neg", Kids: []*Expr{eLit(vInt(1))}}, &neg1}, val(vFloat(0.5)), val(vStr("a")), val(vStr("0")), val(vStr(" ")),
 			{&Expr{Op: "arr"}, &emptyArr}, {&Expr{Op: "arr", Kids: []*Expr{eLit(vInt(0))}}, &arr0},
-			{&Expr{Op: "obj"}, &emptyObj}, {&Expr{Op: "obj", Keys: []string{"a"}, Kids: []*Expr{eLit(vInt(0))}}, &objA}},
+			{&Expr{Op: "obj"}, &emptyObj}, {&Expr{Op: "obj", Keys: []string{"a"}, Kids: []*Expr{eLit(vInt(0))}}, &objA},
+			{eCall(eLit(vStr("ab")), "len"), nil}}, // a condition that contains parentheses of its own
 		{{eVar("zz"), nil}, {eBin("+", eLit(vInt(1)), eLit(vStr("a"))), nil}, {eBin("/", eLit(vInt(1)), eLit(vInt(0))), nil},
-			{eBin("%", eLit(vInt(1)), eLit(vInt(0))), nil}, {eDot(eVar("zz"), "k"), nil}},
+			{eBin("%", eLit(vInt(1)), eLit(vInt(0))), nil}, {eDot(eVar("zz"), "k"), nil}, {eCall(eVar("zz"), "len"), nil}},
 	}
 }
 
@@ -98,6 +100,12 @@ func c02Build(cs c02Case) ([]*Node, map[string]Val) {
 		case 4:
 			construct = []*Node{nText("<" + tag), {K: "if", E: eLit(vStr("")), Body: []*Node{nText("NO")}, HasElse: true, Else: construct}, nText(tag + ">")}
 		}
+	}
+	switch cs.Pre {
+	case 1:
+		construct = append([]*Node{nPrint(eBin("*", eBin("+", eLit(vInt(1)), eLit(vInt(2))), eLit(vInt(3)))), nText(";")}, construct...)
+	case 2:
+		construct = append([]*Node{nPrint(eCall(eLit(vStr("ab")), "len")), nText(";")}, construct...)
 	}
 	return construct, data
 }
@@ -177,7 +185,7 @@ func c02Run(c *Ctx) {
 		}
 	}
 	recP(nil)
-	maxRep := 11
+	maxRep := 12
 	for n := 1; n <= maxElseIf+1; n++ {
 		sizes := make([]int, n)
 		for i := range sizes {
@@ -215,6 +223,13 @@ func c02Run(c *Ctx) {
 							if !do(c02Case{Mode: "chain", Classes: classes, HasElse: hasElse, Rep: rep, VarMask: vm, Place: pl}, nontriv) {
 								return false
 							}
+							if vm == 0 {
+								for pre := 1; pre <= 2; pre++ {
+									if !do(c02Case{Mode: "chain", Classes: classes, HasElse: hasElse, Rep: rep, VarMask: vm, Place: pl, Pre: pre}, true) {
+										return false
+									}
+								}
+							}
 							if rep < 2 && vm == 0 {
 								if !do(c02Case{Mode: "chain", Classes: classes, HasElse: hasElse, Rep: rep, VarMask: vm, Place: pl, Paren: true}, true) {
 									return false
@@ -245,6 +260,9 @@ func c02Run(c *Ctx) {
 				for _, vm := range []int{0, 1} {
 					for _, pl := range places {
 						if !do(c02Case{Mode: mode, Classes: []int{class}, Rep: rep, VarMask: vm, Place: pl}, class != 0) {
+							return
+						}
+						if vm == 0 && !do(c02Case{Mode: mode, Classes: []int{class}, Rep: rep, VarMask: vm, Place: pl, Pre: 1 + rep%2}, true) {
 							return
 						}
 					}
